@@ -105,6 +105,18 @@ Theorem resume_exact_doubleprox_dc :
 Proof. exact dpdc_resume. Qed.
 Print Assumptions resume_exact_doubleprox_dc.
 
+Theorem resume_exact_dca :
+  forall (gradfcc gradg : list R -> list R) (n m : nat) (x : list R),
+  iter (n + m) (dca_step gradfcc gradg) x = iter m (dca_step gradfcc gradg) (iter n (dca_step gradfcc gradg) x).
+Proof. exact dca_resume. Qed.
+Print Assumptions resume_exact_dca.
+Theorem resume_exact_prox_dca :
+  forall (gradg proxf : list R -> list R) (gamma : R) (n m : nat) (x : list R),
+  iter (n + m) (prox_dca_step gradg proxf gamma) x
+  = iter m (prox_dca_step gradg proxf gamma) (iter n (prox_dca_step gradg proxf gamma) x).
+Proof. exact prox_dca_resume. Qed.
+Print Assumptions resume_exact_prox_dca.
+
 (* steepest descent with ConstantLineSearch, tolerance test and projection: the
    second call starts with a fresh "not returned yet" flag and still ends at
    the same iterate (an early return is a fixed point). *)
@@ -348,6 +360,24 @@ Theorem gen_landweber_is_model :
     /\ h_log s = trace (fun x => x) niter (landweber_step A Dadj proj rhs omega) x.
 Proof. exact gen_lw_run. Qed.
 Print Assumptions gen_landweber_is_model.
+
+(* generated dca and prox_dca (same file as doubleprox_dc): final x and log are those of the model *)
+Theorem gen_dca_prox_dca_are_models :
+  forall (gradfcc gradg proxf : list R -> list R) (gamma : R) (junk : string -> list R) (niter : nat) (x : list R),
+  let I := mk_I [("gamma", gamma)]
+                [("f.convex_conj.gradient", gradfcc); ("g.gradient", gradg); ("f.proximal(gamma)", proxf)] [] [] junk in
+  let s0 := mk_hst [("x", 0%nat); ("caller.x", 0%nat)] [x] [] in
+  run_prog I dca_pre dca_body niter s0
+  = Some (mk_hst [("x", 0%nat); ("caller.x", 0%nat)] [iter niter (dca_step gradfcc gradg) x]
+            (trace (fun x => x) niter (dca_step gradfcc gradg) x))
+  /\ run_prog I prox_dca_pre prox_dca_body niter s0
+     = Some (mk_hst [("x", 0%nat); ("caller.x", 0%nat)] [iter niter (prox_dca_step gradg proxf gamma) x]
+               (trace (fun x => x) niter (prox_dca_step gradg proxf gamma) x)).
+Proof.
+  exact (fun gradfcc gradg proxf gamma junk niter x =>
+    conj (gen_dca_run gradfcc gradg proxf gamma junk niter x) (gen_prox_dca_run gradfcc gradg proxf gamma junk niter x)).
+Qed.
+Print Assumptions gen_dca_prox_dca_are_models.
 
 (* generated steepest_descent (constant step; the `return` inside the loop): the caller's x
    and the callback log are those of the model with its "returned" flag *)
